@@ -191,6 +191,22 @@ def likelihood_array(name, blob, x):
     return pure(name, blob, x)
 
 
+def likelihood_kw(x, name='gauss', blob='float', scale=1.0, shift=0.0):
+    """user likelihood with keyword arguments that have DEFAULTS: log L = scale * pure(x) + shift and
+    the blob is shifted too (so that a worker that lost the configured kwargs is visible)"""
+    if LOG['on']:
+        LOG['like'].append(np.array(x, copy=True))
+    r = pure(name, blob, x)
+    if isinstance(r, tuple):
+        return (scale * r[0] + shift,) + tuple(b + shift for b in r[1:])
+    return scale * r + shift
+
+
+def prior_shift(offset, x, power=1):
+    """prior function with a positional and a keyword argument (identity for offset=0, power=1)"""
+    return (x + offset) ** power
+
+
 def likelihood_dict(name, blob, keys, d):
     """user likelihood taking dictionaries (keys in order)"""
     x = np.stack([np.asarray(d[k]) for k in keys], axis=-1)
@@ -330,7 +346,7 @@ DEFAULTS = dict(
     nn=dict(hidden_layer_sizes=(6,), max_iter=60), periodic=None, blob='none', vectorized=False,
     prior='identity', pool_l=0, pool_s=0, discard=False, seed=1, f_live=0.05, n_shell=1,
     n_eff=150, file=True, enlarge_per_dim=1.1, n_points_min=6, n_like_new_bound=None,
-    split_threshold=100, verbose=False, want=None, want_unmet=None, ext='.h5', pathlib=False)
+    split_threshold=100, verbose=False, want=None, want_unmet=None, ext='.h5', pathlib=False, stale_file=False)
 
 
 class Scenario(dict):
